@@ -38,6 +38,7 @@ const prelude = `(set-option :produce-models true)
 (declare-fun aidx (V) Int)
 (declare-fun aobj (V) V)
 (declare-fun aid (V) Int)
+(declare-fun adepth (V) Int)
 (declare-fun tag (V) Int)
 (declare-fun clofn (V) Int)
 (declare-const nilV V)
